@@ -112,7 +112,11 @@ func c04Gen(r *RNG, tier string) []json.RawMessage {
 	// output so that different seeds give unrelated streams
 	r = NewRNG(r.U64())
 	reg := registeredDecs()
-	add := func(t TableSpec, d DecSpec) { out = append(out, mustJSON(TextSpec{Table: t, Decs: []DecSpec{d}})) }
+	var curHooks []HookSpec
+	var curNest *NestSpec
+	add := func(t TableSpec, d DecSpec) {
+		out = append(out, mustJSON(TextSpec{Table: t, Decs: []DecSpec{d}, Hooks: curHooks, Nest: curNest}))
+	}
 	k := 0
 	nextReg := func() DecSpec { k++; return reg[k%len(reg)] }
 
@@ -232,6 +236,69 @@ func c04Gen(r *RNG, tier string) []json.RawMessage {
 		}
 	}
 
+	// items WITHOUT text that declare a width and / or a height of every
+	// class: the row occupies the declared lines, the column the declared width
+	for _, w := range []*int{nil, intp(-1), intp(0), intp(1), intp(4), intp(65)} {
+		for _, h := range []*int{nil, intp(-1), intp(0), intp(1), intp(2), intp(3), intp(7)} {
+			if w == nil && h == nil {
+				continue
+			}
+			hd := []ItemSpec{Str("n"), Str("v")}
+			ts := TableSpec{Header: &hd, Rows: []RowSpec{
+				{Cells: []ItemSpec{sizedItem("", w, h), Str("q")}},
+				{Cells: []ItemSpec{Str("r"), sizedItem("", w, h)}, How: 1},
+			}, Align: map[int]int{}}
+			if a := r.Intn(4); a != 0 {
+				ts.Align[r.Intn(3)] = a
+			}
+			add(ts, nextReg())
+			hd2 := []ItemSpec{sizedItem("", w, h), Str("v")}
+			add(TableSpec{Header: &hd2, Rows: []RowSpec{{Cells: []ItemSpec{Str("x"), Str("y")}}}}, nextReg())
+		}
+	}
+	// render, same-size mutation + Update, render again: texts with and
+	// without declared sizes, under every alignment, in body and header
+	for _, s := range []string{"abc", "ab\ncd\nef", "日本語", "ＡＢ x1", "q"} {
+		for a := 0; a <= 3; a++ {
+			for v := 0; v < 3; v++ {
+				var it ItemSpec
+				switch v {
+				case 0:
+					it = ItemSpec{K: "obj", Mask: 1, S: []byte(s)}
+				case 1:
+					it = sizedItem(s, intp(length.LongestLineCells(s)+2), nil)
+				case 2:
+					it = sizedItem(s, nil, intp(len(length.Lines(s))+1))
+				}
+				hd := []ItemSpec{it, Str("v")}
+				ts := TableSpec{Header: &hd, Rows: []RowSpec{
+					{Cells: []ItemSpec{Str("wider than all"), it}},
+					{Cells: []ItemSpec{it}, How: 1},
+				}, Align: map[int]int{}}
+				if a != 0 {
+					ts.Align[(a+v)%3] = a
+				}
+				if mutateSameSize(&ts, 100, nil) == 0 {
+					continue
+				}
+				if v == 1 {
+					ts.Stages = []int{0}
+				}
+				add(ts, nextReg())
+			}
+		}
+	}
+	// the application's own callbacks, failing, registered before the Wrap, on the hostile grid with alignments
+	for when := 0; when < 4; when++ {
+		for pat := 0; pat < 3; pat++ {
+			ts := hostileGrid(3)
+			ts.Align = map[int]int{0: 1 + (when+pat)%3, 2: 1 + when%3}
+			curHooks = []HookSpec{{When: when, Target: 1, ErrMod: 1 + pat, ErrRem: pat % 2, SetProp: pat == 1}}
+			add(ts, nextReg())
+		}
+	}
+	curHooks = nil
+
 	// random grids with random alignments, sized items, registered and custom decorations
 	n := 330
 	if tier == "thorough" {
@@ -262,12 +329,22 @@ func c04Gen(r *RNG, tier string) []json.RawMessage {
 			if len(ts.AlignEarly) > 0 && r.Pct(30) {
 				ts.Align[0] = 0 // the early default is removed again
 			}
+		case r.Pct(15):
+			mutateSameSize(&ts, 60, r)
+		}
+		curHooks, curNest = nil, nil
+		if r.Pct(12) {
+			curHooks = randHooks(r)
+		}
+		if r.Pct(6) {
+			curNest = randNest(r)
 		}
 		d := nextReg()
 		if r.Pct(25) {
 			d = randDecoration(r)
 		}
 		add(ts, d)
+		curHooks, curNest = nil, nil
 	}
 	return out
 }
@@ -283,7 +360,8 @@ func init() {
 			"and with items of generated types implementing TerminalCellWidth() and/or Height(): declared width in {-1, 0, smaller, equal, larger (odd and even slack)}, declared height in {-1, 0, 1, fewer, equal, more}; " +
 			"every assignment of {unset,L,R,C} to column 0 and each column for 1, 2 and 3 columns (4^2 + 4^3 + 4^4 = 336) on a fixed hostile grid; every width class x height class on 7 texts, in body and header; random grids to 4x5 with random alignments, sized items, registered and custom decorations; " +
 			"alignment histories: the column-0 default set before the columns exist, rows added, then the default changed, unset (SetProperty(key, nil)) or left alone, for every (early, late) pair with the header absent / first / last, and own settings made early then changed or unset; staged renders through one reused wrapper with shape-preserving changes in between (late cells, same-count second header) on a fifth of the random grids; paddings of 63..300 blanks under every alignment, declared widths / heights of 65..300; " +
-			"the expected view (texts, sizes, effective alignments) is computed from the SPEC alone (TableSpec.SpecView), not read back from the table under test; " +
+			"items without text declaring every class of width x height (body and header); render, same-size mutation (same width per line, same line count, other bytes) + Update through CellAt / Headers, render again through the same wrapper, for plain and sized items under every alignment; the application's own failing callbacks registered before the Wrap; another table rendered from inside the writer; BuildRenderW's StageFaults / FinalVia / FaultAt / Scribble / PropOps via enrichSpec; " +
+			"the expected view (texts, effective alignments) is computed from the SPEC alone (TableSpec.SpecView) and the sizes of items that declare them from the spec's declared numbers (not from the library's Cell), not read back from the table under test; " +
 			"multi-line items declaring a width below one of their lines are outside the statement (tagged excluded:..., still compared with the model); a case is non-trivial when the table has at least one column and no excluded item",
 		Exhaustive: "all 336 alignment assignments for <= 3 columns on the fixed grid; all width-class x height-class pairs on 7 body texts and 2 header texts",
 		Gen:        c04Gen,
